@@ -33,6 +33,20 @@ theorem column_boundaries_correct (P : Str) (cells : List Cell) (tail : Str) (co
   rw [parseTableLine_cells P cells tail cols c0 cs hcols hI hP ht hwf hsep hne]
   simp [numposOf, natPos]
 
+/-- The excluded case is a known finding, exhibited on the model: in an ECO2M table (integer column `I` first) whose
+    first row prints a negative first real right against the integer, `parse_table_line` bounds the `I` column by the
+    first blank after the digit — which now lies behind the pressure — so the `I` cell of an ordinary row reads as
+    digit and pressure glued together (20.219638E+08 instead of 2) and the pressure column is empty. -/
+theorem icolumn_negative_first_real_witness :
+    startOfValues " A1001     1 2-0.221166E+08  45.0000\n".toList [['I'], ['P'], ['T']] = .ok (some 12) ∧
+    parseTableLine " A1001     1 2-0.221166E+08  45.0000\n".toList (some 12) [['I'], ['P'], ['T']]
+      = .ok [some 12, some 27, some 27, some 37] ∧
+    readTableLineTOUGH2 " A1003     3 2 0.219638E+08  45.0000\n".toList 3 [some 12, some 27, some 27, some 37]
+      = .ok [.fin false 20219638 2, .fin false 0 0, .fin false 450000 (-4)] ∧
+    -- with the positive value the shipped file prints, the same functions give the right columns
+    parseTableLine " A1001     1 2 0.221166E+08  45.0000\n".toList (some 12) [['I'], ['P'], ['T']]
+      = .ok [some 12, some 14, some 27, some 37] := by decide
+
 /-- **Row slicing.**  With boundaries `b₀ … bₙ` (as inferred above) `read_table_line_TOUGH2` never raises on any
     line whatsoever, returns at least `ncols` values, value `k` is `fortran_float` of columns `[b_k, b_{k+1})` of the
     row, and the values beyond the inferred fields are 0.0. -/
